@@ -469,7 +469,7 @@ func crCases(c *core.Ctx) ([]json.RawMessage, error) {
 			famSize[cs.Skel]++
 		}
 		for i, cs := range extra {
-			if famSize[cs.Skel] > 300 && (i+int(c.Seed))%c.Pick(37, 5) != 0 {
+			if famSize[cs.Skel] > 600 && (i+int(c.Seed))%c.Pick(37, 5) != 0 {
 				continue
 			}
 			if len(cs.Extra["root"]) > 20000 && !c.Thorough() {
